@@ -10,7 +10,8 @@
    byte-exact generator correspondence and judged on the reference machine. *)
 From Coq Require Import ZArith List String Bool.
 From Gigue Require Import Types Bits Isa Enc GenTables Builder BuilderTies Samplers Generator Machine MachineLemmas
-  SplitProofs FragProofs GenLemmas ImageSem CtorSpec C12Defs C12Proofs GenWF GenWFProps SliceLemmas FloatSign GenWF2 BodyExec BodyBridge GenWF5 FrameExec CodeMem SwitchExec GenWF6 CallFrame FixerTamper Witness.
+  SplitProofs FragProofs GenLemmas ImageSem CtorSpec C12Defs C12Proofs GenWF GenWFProps SliceLemmas FloatSign GenWF2 BodyExec BodyBridge GenWF5 FrameExec CodeMem SwitchExec GenWF6 CallFrame FixerTamper MethodContract SaveRestore WholeImage Loader
+  GenWF9F WalkK FixerCall MethodContractFixer WholeImageFixer LoaderFixer Witness.
 Import ListNotations.
 Open Scope Z_scope.
 
@@ -134,8 +135,47 @@ Theorem C11_checked_return_passes_partial : forall L,
   0 <= A -> A + 28 < W64 ->
   exists s', exec_at VFixer L A (firstn 5 fixer_epi_call) s = Next s' /\ pc s' = A + 24 /\
     exec VFixer L s' (Jalr 0 1 0) = Next (set_pc s' ((u64 (top + 0) / 2) * 2)) /\
-    cfi s' = rest /\ rget s' 2 = S /\ rget s' 8 = s0e /\ rget s' 1 = top.
+    cfi s' = rest /\ rget s' 2 = S /\ rget s' 8 = s0e /\ rget s' 1 = top /\
+    mem s' = mem s /\ dom s' = dom s /\
+    (forall r, 0 <= r -> r <> 1 -> r <> 2 -> r <> 8 -> r <> 28 -> rget s' r = rget s r).
 Proof. exact fixer_checked_return_passes. Qed.
+
+(* PROVED (Layer B), FIXER, WHOLE IMAGE over the emitted files
+   (LoaderFixer.fixer_image_from_files): THE UNTAMPERED RUN.  For every accepted
+   configuration, decision script and emitted image, from ImageSem.Init (CFI stack
+   empty) the run - interpreter loop, call trampoline (which registers the address
+   of the return trampoline, the return address of the element it enters), PIC
+   dispatch, every method with all its callees - ends at the halt address with
+   outcome `Next` at every step: the trap (ecall) is never reached, no cfiret
+   finds the CFI stack empty (FCfiEmpty is a machine fault), and `cfi s' = []` at
+   exit.  The structure of the proof is exactly the clause: every call executed
+   from JIT code or the call trampoline is immediately preceded by the cficall
+   registering that call's return address (FixerCall.fixer_method_call_shape /
+   fx_tramp_call; C11_method_call_tagged_partial), and every JIT method return is
+   the check sequence (MethodContractFixer: leaf and call-making epilogues),
+   which passes because the tag on top of the CFI stack is the activation's own
+   return address (LIFO matching along the call DAG, by induction on the call depth). *)
+Theorem C11_untampered_run : forall c script img,
+  successful c script img -> c_variant c = GFixer -> c_data_reg c <> 6 ->
+  forall L s0, Init c img (xNtot c img) L s0 -> code_lo L = int_start_al c ->
+    code_hi L - code_lo L < 2147483648 - 2048 -> pics_encodable img ->
+    (forall r o, In (r, o) int_slots -> 0 <= rget s0 r < W64) ->
+    exists s' eh, map fst eh = im_elements img /\ Forall (fun x => xhit_ok (fst x) (snd x)) eh /\
+      run (gv c) L (ximage_steps img eh) s0 = (Next s', ximage_steps img eh) /\ pc s' = halt_at L /\
+      (forall r, 0 <= r -> wr c r = false -> ~ xclob c r -> rget s' r = rget s0 r) /\
+      mem_frame c L s0 s' (stk_hi L - xNtot c img) (stk_hi L) /\ dom s' = 0 /\ cfi s' = [].
+Proof. exact fixer_image_from_files. Qed.
+
+(* the method contract behind it: every FIXER method entered with its return address
+   registered on top of the CFI stack returns to it, pops exactly that tag, in
+   exactly steps_fixer steps (the trap instruction is skipped: |method| - 1 + callees) *)
+Theorem C11_every_method_checked : forall c script img,
+  successful c script img -> c_variant c = GFixer ->
+  forall L, placed c img L ->
+  forall id m, nth_error (im_methods img) id = Some m ->
+  fcontract c img L (need_method c (im_methods img) (max_depth (im_methods img)) id)
+            (steps_fixer (im_methods img) (max_depth (im_methods img)) id) m.
+Proof. exact every_fixer_method_returns. Qed.
 
 Theorem C11_nonvacuous : exists img, successful wcfg_fixer wscript_fixer img.
 Proof. exact witness_fixer. Qed.
@@ -144,6 +184,8 @@ Print Assumptions C11_leaf_methods_checked_partial.
 Print Assumptions C11_checked_epilogue_is_regenerated_partial.
 Print Assumptions C11_forged_return_trapped_partial.
 Print Assumptions C11_checked_return_passes_partial.
+Print Assumptions C11_untampered_run.
+Print Assumptions C11_every_method_checked.
 Print Assumptions C11_nonvacuous.
 Print Assumptions C11_returns_checked_partial.
 Print Assumptions C11_method_call_tagged_partial.
